@@ -35,7 +35,8 @@ EXPLANATION = (
     "event type, untouched, along Event.event_type -> Node.event_type -> "
     "create_event_node -> PUMLEventNode.node_type -> ':{node_type};'. R5.6 "
     "break / detach are emitted only as the last line of the node that owns "
-    "them.")
+    "them."
+    " Added: R5.7 copies of a diagram node carry every constructor field; R5.8 separators are indexed by branch position; R5.9 every opened block gets its end node connected; R5.10 the per-path lists of a logic block rotate in lock-step; R5.11 the output file is opened only after the text exists.")
 TRUSTED = ["the repository's hand-written corpus is the oracle for the "
            "dialect plus2json consumes"]
 NOT_DECIDED = ["block closure and nesting as a function of graph shape",
